@@ -52,12 +52,12 @@ func (c cfgFlags) String() string {
 }
 
 type hctx struct {
-	f   lib.Flags
-	res *lib.Result
-	drv *lib.Driver
-	dmu sync.Mutex
-	tt  *termTable
-	cfg cfgFlags
+	f    lib.Flags
+	res  *lib.Result
+	drv  *lib.Driver
+	dmu  sync.Mutex
+	tt   *termTable
+	cfg  cfgFlags
 	pcfg pcfgFlags
 	// scenarios in which the real Processor diverged from the model only after a subprocessor ended
 	postFinalization []*procScenario
